@@ -190,3 +190,12 @@ for _p in list(RULES):
 for _p in ("C08", "C12"):
     PLANS[_p]["quick"].append(st("dbg", "panicdrop", 2992, 12, 8))
     PLANS[_p]["thorough"].append(st("rel", "panicdrop", 1496 * 20, 12, 16, 3000))
+
+# C16 across a caught destructor panic inside ChangeSet::clear / drop / by-value join
+PLANS["C16"]["quick"].append(st("dbg", "panicdrop", 1496, 12, 8, only_op="changeset"))
+PLANS["C16"]["thorough"].append(st("rel", "panicdrop", 1496 * 20, 12, 16, 3000, only_op="changeset"))
+# C17 under concurrent creation: a fresh index only once the free list is exhausted
+PLANS["C17"]["quick"].append(st("rel", "conc", 1200, 300, 8, mode="stress"))
+PLANS["C17"]["quick"].append(st("dbg", "conc", 12000, 6, 8, mode="controlled"))
+PLANS["C17"]["thorough"].append(st("rel", "conc", 40000, 400, 8, 3000, mode="stress", max_threads=16))
+PLANS["C17"]["thorough"].append(st("dbg", "conc", 400000, 6, 16, 3000, mode="controlled"))
